@@ -188,3 +188,24 @@ func (hp *HPACK) VerifHandleHeaderFrame(strm *VerifStreamBlock, payload []byte, 
 
 	return nil
 }
+
+// VerifSetPriority sets the flag that makes Serialize write the priority
+// section; outside this file only Deserialize sets it.
+func (h *Headers) VerifSetPriority(v bool) { h.priority = v }
+
+// VerifPriority reports whether the frame carries a priority section.
+func (h *Headers) VerifPriority() bool { return h.priority }
+
+// VerifSet sets the fields of a PushPromise that have no public setter.
+func (pp *PushPromise) VerifSet(stream uint32, ended bool) { pp.stream = stream; pp.ended = ended }
+
+// VerifGet returns the fields of a PushPromise (it has no public getters).
+func (pp *PushPromise) VerifGet() (stream uint32, ended bool, header []byte) {
+	return pp.stream, pp.ended, pp.header
+}
+
+// VerifHasWindowSize reports whether SETTINGS_INITIAL_WINDOW_SIZE was present.
+func (st *Settings) VerifHasWindowSize() bool { return st.hasWindowSize }
+
+// VerifErrFrameType returns the frame type an Error asks to be answered with.
+func VerifErrFrameType(e Error) FrameType { return e.frameType }
